@@ -29,6 +29,9 @@ CATALOGUE = {
     "independent-create": "EA1 EB1 EB2 Start Wait EA2 DA1 Wait DB1 Wait",
     "two-docs-restart":   "EA1 EA2 Start Wait Stop EA1 EB2 DB1 Start Wait Stop EB1 Start Wait",
     "edit-edit-delete":   "EB1 Start Wait Stop EA1 EA1 DA1 EB1 Start Wait RB1 Wait",
+    "hidden-tombstone":   "EA1 EB1 Start Wait DA1 Wait DB1 Wait",
+    "source-only":        "EA1 EB2 Start Wait Stop EA1 EB2 DA1 Start Wait RA1 EB2 Wait",
+    "source-only-restart": "EA1 EB2 Start Wait Stop EA1 EB2 Start Wait Stop DA1 DB2 Start Wait RA1 RB2 Wait",
 }
 
 
@@ -54,7 +57,6 @@ def run(ctx):
     behs = []     # (label, proto, dir, steps)
     nsim = 2 if ctx.quick() else 14
     nbeh = 1 if ctx.quick() else 6
-    ncat = 2 if ctx.quick() else len(CATALOGUE)
     names = sorted(CATALOGUE)
     allb = behaviours(ctx, SPEC, "MC_Replication", "Beh_Replication.cfg", env={"C06_DIR": "pushAndPull"}, timeout=1800)
     sims = behaviours(ctx, SPEC, "MC_Replication", "Sim_Replication.cfg", num=120 if ctx.quick() else 900, depth=60,
@@ -65,7 +67,10 @@ def run(ctx):
         rnd.shuffle(pb)
         rnd.shuffle(ps)
         for d in DIRS:
-            for n in rnd.sample(names, ncat):
+            # always replayed: the shapes behind the recorded findings (bidirectional) / documents written on the source side only
+            fixed = ["both-delete", "hidden-tombstone"] if d == "pushAndPull" else [rnd.choice(["source-only", "source-only-restart"])]
+            rest = [n for n in names if n not in fixed]
+            for n in fixed + (rnd.sample(rest, 1) if ctx.quick() else rest):
                 behs.append(("cat:" + n, proto, d, parse_steps(CATALOGUE[n])))
             for b in pb[:nbeh]:
                 behs.append(("beh", proto, d, clean(b["steps"])))
